@@ -80,9 +80,15 @@ class _IdxContract(Exception):
     pass
 
 
+def _f32(case):
+    return case.get("dtype") == "float32"
+
+
 def _table_tensor(case):
     u = float(case.get("unit", 4))   # logits = integer / unit (a power of two: exact in float64)
-    return torch.tensor([[NINF if x is None else x / u for x in row] for row in case["table"]], dtype=torch.float64)
+    t = torch.tensor([[NINF if x is None else x / u for x in row] for row in case["table"]], dtype=torch.float64)
+    # float32 cases (extreme-magnitude stream): the generator keeps |integer| < 2^24, so the cast is exact
+    return t.to(torch.float32) if _f32(case) else t
 
 
 def _search_once(case, inits, N):
@@ -137,8 +143,28 @@ GRID = 2 ** 40
 def _scale(case):
     """torch's float64 log_softmax of the logits table, rounded to the 2^-40 grid (error < 5e-13 per
     entry, three orders of magnitude below the comparison tolerance) -> integers."""
-    lp = _table_tensor(case).log_softmax(-1)
+    lp = _table_tensor(case).log_softmax(-1)     # in the table's own dtype (float32 values are exact doubles)
     return GRID, [[None if float(x) == NINF else round(Fraction(float(x)) * GRID) for x in row] for row in lp]
+
+
+def _tol_margin(case, den, tab):
+    """(tolerance, near-tie margin) as integers on the grid.  The implementation adds at most `steps` rounded
+    terms; a partial sum is at most steps*maxabs in magnitude, so the accumulated rounding error is below
+    u*maxabs*steps*(steps+1) with u = 2^-51 (float64) or 2^-22 (float32) -- a factor 4 above the half-ulp bound,
+    which also absorbs a last-place difference between two evaluations of torch's log_softmax.  For O(1)..O(10)
+    float64 logits this is far below the fixed 1e-9 / 1e-6, which stay the floor; only the extreme-magnitude and
+    float32 cases widen it.  Every discrete decision of the model is kept at >= 4*tolerance (else: skipped as tie)."""
+    maxabs = max([abs(x) for row in tab for x in row if x is not None] + [0])
+    steps = max(1, _fuel(case))
+    u = Fraction(1, 2 ** 22) if _f32(case) else Fraction(1, 2 ** 51)
+    err = math.ceil(u * maxabs * steps * (steps + 1))
+    tol = max(den // 10 ** 9, err)
+    return tol, max(den // 10 ** 6, 4 * tol)
+
+
+def _tol_float(case):
+    den, tab = _scale(case)
+    return _tol_margin(case, den, tab)[0] / den
 
 
 def cscore(x):
@@ -189,8 +215,8 @@ def model_terms(case, res):
     lm = "lm"
     V, W = cn(case["V"]), cn(case["width"])
     inits = clz(case["inits"])
-    margin = cz(den // 10 ** 6)
-    tol = cz(den // 10 ** 9)
+    tolz, marginz = _tol_margin(case, den, tab)
+    margin, tol = cz(marginz), cz(tolz)
     head = f"{lm} {V} {W} {_eos(case)} {cb(case['fin_all'])} {cz(case['pad'])} {cn(_fuel(case))}"
     tied = f"tied_search {head} {inits} {margin}"
     if res.get("watchdog"):
@@ -354,6 +380,11 @@ def gen_adv(rng):
             ok = ok and len(set(sums)) == len(sums)
         if not ok:
             continue
+        # extreme magnitude: the same scores times 2^10..2^30 (sums stay exact integers below 2^53, still distinct)
+        big = rng.choice([0, 0, 0, 0, 10, 20, 30])
+        if big:
+            prev = [[None if x is None else x * 2 ** big for x in r] for r in prev]
+            logp = [[[None if x is None else x * 2 ** big for x in r] for r in e] for e in logp]
         y = [[[rng.randint(0, max(V - 1, 0)) for _ in range(S)] for _ in range(Kp)] for _ in range(N)]
         lens = None
         if has_lens:
@@ -443,6 +474,83 @@ def gen_zero_prob(rng):
         return c
 
 
+XUNIT = 16   # extreme-magnitude logits = integer / 16 with |integer| < 2^24: exact in float32 and float64
+
+
+def _xrow(rng, V):
+    """one row of extreme-magnitude logits: O(1) values scaled by 100..1000, and/or one logit dominating by
+    100..1500 nats (softmax of the others underflows to exactly 0 beyond ~104 nats in float32 / ~745 in
+    float64, while their log-probability stays finite), and/or a common offset of +-100..1000 (exp overflows
+    beyond 88.7 / 709.8, underflows to 0 below -104 / -745)."""
+    mode = rng.choice(["scaled", "offset", "dominant", "dominant+offset", "scaled+offset", "scaled+dominant"])
+    if "scaled" in mode:
+        s = rng.randint(100, 1000)
+        row = [rng.randint(-3 * XUNIT * s, 3 * XUNIT * s) for _ in range(V)]
+    else:
+        row = [rng.randint(-3 * XUNIT, 3 * XUNIT) for _ in range(V)]
+    if "dominant" in mode:
+        j = rng.randrange(V)
+        row[j] += rng.randint(100 * XUNIT, 1500 * XUNIT)
+        if V >= 3 and rng.random() < 0.6:
+            # two logits share the top: no log-probability is exactly 0, which keeps exact ties between
+            # paths ("x then the dominant token" = "the dominant token then x") rare
+            row[(j + rng.randint(1, V - 1)) % V] = row[j] + rng.randint(-3 * XUNIT, 3 * XUNIT)
+    if "offset" in mode:
+        off = rng.choice([-1, 1]) * rng.randint(100 * XUNIT, 1000 * XUNIT)
+        row = [x + off for x in row]
+    return row
+
+
+def gen_extreme(rng):
+    """extreme-magnitude regime: every row of the LM's logits table is huge, shifted or dominated (see _xrow),
+    in float32 or float64.  All logits are finite, so every path has a finite chained log-probability: a
+    numerically naive normalisation (softmax().log(), log(sum(exp)) without the max shift) turns them into
+    -inf / +inf / NaN.  Half of the cases have a beam wide enough for every complete sequence and run to
+    completion (the spec's exhaustive clause then needs every sequence with its finite score)."""
+    while True:
+        c = gen_search(rng)
+        V = c["V"]
+        if V < 2:
+            continue
+        c["dtype"] = rng.choice(["float32", "float64"])
+        c["unit"] = XUNIT
+        c["table"] = [_xrow(rng, V) for _ in range(c["M"])]
+        if rng.random() < 0.5:
+            eos = None if c["eos"] is None else c["eos"] % V
+            mi = rng.randint(1, 3)
+            nc = n_complete(V, eos, mi)
+            if nc <= 40:
+                c["max_iters"], c["width"] = mi, nc + rng.randint(0, 2)
+                if eos is not None:
+                    c["fin_all"] = True
+        if c["N"] == 0 and c["eos"] is None and (c["max_iters"] or 0) > 1:
+            c["N"] = 2
+            c["inits"] = [rng.randrange(c["M"]) for _ in range(2)]
+        return c
+
+
+def expected_finite(case, S):
+    """number of finite-score slots every element must have after S steps, when it can be told without a
+    search: eos unset and all logits finite (every candidate then has a finite log-probability, so a -inf slot
+    is legitimate only while there are fewer candidates than slots).  None otherwise."""
+    if case["eos"] is not None or not _all_finite(case):
+        return None
+    cnt = 1
+    for _ in range(S):
+        cnt = min(case["width"], cnt * case["V"])
+    return cnt
+
+
+def finite_slots_ok(case, res):
+    """the property's '-inf only for unusable slots', checked directly on the implementation's output"""
+    if "out" not in res:
+        return True
+    want = expected_finite(case, res["S"])
+    if want is None:
+        return True
+    return all(sum(o is not None for o in row) >= want for row in res["out"])
+
+
 FIXED_TABLES = [  # (M, a, b, c, table) for V=2 ; logits in units of 1/64
     (5, 2, 1, 1, [[48, -33], [-81, 64], [3, 17], [-20, 29], [70, -5]]),
     (7, 3, 2, 1, [[-113, 32], [97, 15], [16, -49], [-32, -67], [5, 6], [-90, 41], [12, 100]]),
@@ -480,14 +588,14 @@ def gen_exhaustive(tier):
 # ----------------------------------------------------------------------------------------------------
 # judging
 # ----------------------------------------------------------------------------------------------------
-def _same_elem(a, b):
-    """two canonical beams of one element: same finite slots (scores within TOL), same -inf slots."""
+def _same_elem(a, b, tol=TOL):
+    """two canonical beams of one element: same finite slots (scores within tol), same -inf slots."""
     if len(a) != len(b):
         return False
     for x, y in zip(a, b):
         if (x is None) != (y is None):
             return False
-        if x is not None and (x[0] != y[0] or x[1] != y[1] or not (abs(x[2] - y[2]) <= TOL)):
+        if x is not None and (x[0] != y[0] or x[1] != y[1] or not (abs(x[2] - y[2]) <= tol)):
             return False
     return True
 
@@ -522,12 +630,13 @@ def batch_independent(case, res):
     if case["N"] is None or case["N"] < 1 or "out" not in res:
         return True, None, False
     Ss = []
+    tol = _tol_float(case)
     for n, s0 in enumerate(case["inits"]):
         for NN in (1, None):
             solo = _search_once(case, [s0], NN)
             if "out" not in solo:
                 return False, {"element": n, "alone": solo, "batch_size": NN}, False
-            if not _same_elem(solo["out"][0], res["out"][n]):
+            if not _same_elem(solo["out"][0], res["out"][n], tol):
                 return False, {"element": n, "alone": solo["out"][0], "in_batch": res["out"][n], "batch_size": NN}, False
         Ss.append(solo["S"])
     return True, None, len(set(Ss)) > 1
@@ -542,7 +651,10 @@ def nontrivial(case, res):
 
 
 def _eval3(chk, cases, results, tag):
-    return [tuple(v) for v in eval_rows(chk.workdir, [row_term(c, r) for c, r in zip(cases, results)], tag)]
+    """(tied, agrees with the model, accepted by the spec) per case; 'accepted' = Spec.spec_okb and the directly
+    checked clause finite_slots_ok"""
+    vals = eval_rows(chk.workdir, [row_term(c, r) for c, r in zip(cases, results)], tag)
+    return [(t, ok, spec and finite_slots_ok(c, r)) for (t, ok, spec), c, r in zip(vals, cases, results)]
 
 
 def _search_fails(chk, case):
@@ -582,7 +694,11 @@ def _record(chk, case, res, tied, ok, spec, extra=None):
            "correspondence": "corr:C04:BeamSearch.__call__", "theorems_at_stake": THEOREMS}
     if extra:
         rec.update(extra)
-    if not spec:
+    if not finite_slots_ok(case, res):
+        rec["what"] = ("BeamSearch output violates the property: -inf in a slot that is not unusable (all logits are finite and "
+                       "eos is unset, so after %d steps every element has %d candidates of finite log-probability, yet fewer "
+                       "finite-score slots are returned)" % (res["S"], expected_finite(case, res["S"])))
+    elif not spec:
         rec["what"] = ("BeamSearch output violates the property: a finite-score path is duplicated / not cut at its first "
                        "eos / scored differently from the language model's own chained log-probability / out of order / "
                        "missing from an exhaustive beam")
@@ -592,9 +708,9 @@ def _record(chk, case, res, tied, ok, spec, extra=None):
 
 
 def run_search_cases(chk, cases, meta_budget):
-    results = []
+    results, strm = [], []
     for c in cases:
-        c.pop("stream", None)
+        strm.append(c.pop("stream", None))
         results.append(run_impl(c))
     verdicts = _eval3(chk, cases, results, "srch")
     bad, spec_bad, exc_bad = [], [], []
@@ -606,6 +722,7 @@ def run_search_cases(chk, cases, meta_budget):
         chk.count("search:max_iters=" + ("None" if c["max_iters"] is None else "0" if c["max_iters"] == 0 else "n"))
         chk.count("search:width=" + ("1" if c["width"] == 1 else "<=V" if c["width"] <= c["V"] else ">V"))
         chk.count("search:zero_prob_tokens=%s" % (not _all_finite(c)))
+        chk.count("search:dtype=%s" % c.get("dtype", "float64"))
         if r.get("watchdog"):
             chk.count("search:outcome=still_running_at_cap")
         elif "exc" in r:
@@ -620,7 +737,13 @@ def run_search_cases(chk, cases, meta_budget):
             continue
         if tied:
             chk.count("search:skipped_near_tie")
+            if strm[i] == "extreme-magnitude":
+                chk.count("search:extreme:skipped_near_tie")
             continue
+        if strm[i] == "extreme-magnitude":
+            chk.count("search:extreme:compared")
+            if any(o is None for row in r.get("out", []) for o in row):
+                chk.count("search:extreme:compared_with_unusable_slots")
         if not spec:
             spec_bad.append(i)
         elif not ok:
@@ -770,10 +893,16 @@ def run(chk, cases=None):
                 "the stable topk, tolerance 1e-9, near-tie cases (any decision closer than 1e-6) skipped and counted; the "
                 "same output goes to PV.C04.Spec.spec_okb and to the batch-vs-alone relation. advance case = one call of "
                 "beam_search_advance on integer scores with distinct sums, compared exactly. non-trivial = at least two "
-                "steps and width below the number of complete sequences of that depth (pruning happened)")
+                "steps and width below the number of complete sequences of that depth (pruning happened). extreme-magnitude "
+                "stream: logits scaled by 100..1000, rows shifted by +-100..1000, one logit dominating by 100..1500 nats, in "
+                "float32 and float64 (tolerance and tie margin widened to the rounding bound of the sums, see _tol_margin); "
+                "with eos unset and all logits finite the number of finite-score slots is also checked directly")
     chk.assumptions += [
         "the test LM's rows of log-probabilities are torch's float64 log_softmax of its logits, handed to the model exactly; "
         "sums are compared with tolerance 1e-9 (regime T), decisions kept at margin 1e-6",
+        "extreme-magnitude / float32 cases: the oracle is torch's log_softmax in the table's own dtype (numerically stable: "
+        "finite for all finite logits); tolerance = max(1e-9, u*max|logp|*steps*(steps+1)), u = 2^-51 (float64) or 2^-22 "
+        "(float32), margin = max(1e-6, 4*tolerance)",
         "slots with score -inf are compared only by position (torch.topk's tie-break among -inf candidates is unspecified)",
         "cells of y beyond y_lens are not compared (documented as invalid)",
         "the test LM acts row-wise on the batch and reads only hist[idx-1] and its own state; it refuses idx > hist.size(0) "
@@ -808,6 +937,7 @@ def run(chk, cases=None):
     corpus = [dict(c.get("case", c), stream="corpus") for c in corpus]
     rnd = [dict(gen_search(chk.rng), stream="random") for _ in range(12000 if thorough else 500)]
     rnd += [dict(gen_zero_prob(chk.rng), stream="zero-prob") for _ in range(1500 if thorough else 80)]
+    rnd += [dict(gen_extreme(chk.rng), stream="extreme-magnitude") for _ in range(3000 if thorough else 160)]
     allc = ex + [c for c in corpus if c.get("kind") == "search"] + rnd
     streams = [c.get("stream", "random") for c in allc]
     results = run_search_cases(chk, allc, meta_budget=(3000 if thorough else 150))
